@@ -144,6 +144,16 @@ def gen_stream(rng, size_class, hostnames=(), allow_beyond=False):
     elif size_class == "tailbuf":
         nl = rng.randrange(0, 4)
         lens = [rng.choice(LINE_LENS_SMALL + LINE_LENS_TAILBUF) for _ in range(nl)]
+    elif size_class == "burst":
+        # a chatty stream: (optionally after a line that made the buffer grow) a burst of very many very short
+        # lines, so that ONE read hands _flush_lines tens to hundreds of complete lines at once
+        lens = [rng.choice([0, 5, 40, 63, 64, 65, 200, 998, 1000, 1500])] if rng.random() < 0.8 else []
+        k = rng.choice([20, 63, 64, 65, 127, 128, 129, 150, 200, 300, 500, 800])
+        w = rng.choice([0, 0, 1, 1, 2, 3])
+        lens += [w if rng.random() < 0.9 else rng.randrange(0, 4) for _ in range(k)]
+        if rng.random() < 0.3:
+            lens += [rng.choice(LINE_LENS_SMALL) for _ in range(rng.randrange(1, 4))]
+        tags.add("burst")
     else:  # huge
         nl = rng.randrange(1, 4)
         lens = [rng.choice(LINE_LENS_SMALL + LINE_LENS_MID) for _ in range(nl)]
@@ -362,6 +372,8 @@ def gen_case(rng, size_class, chunk_style=None, spoil_kind=None, allow_beyond=Fa
             payload = spoil(rng, payload, spoil_kind)
             tags.add(spoil_kind)
         style = chunk_style or rng.choice(["whole", "bytes", "newline", "newline", "around", "small", "random", "random"])
+        if size_class == "burst" and not chunk_style:
+            style = rng.choice(["whole", "whole", "around", "random", "random", "small"])
         if style == "bytes" and len(payload) > 600:
             style = "small" if len(payload) < 6000 else "random"
         if style == "small" and len(payload) > 20000:
@@ -787,8 +799,9 @@ def run_check(ctx, prop, props_module, level):
         plan = []
         for exe, name, share in ((exe_dbg, "assert+asan", 0.6), (exe_rel, "shipped(NDEBUG)+asan", 0.4)):
             cases = []
-            counts = [("tiny", 1600 if quick else 12000), ("small", 1200 if quick else 8000),
-                      ("mid", 400 if quick else 2500), ("tailbuf", 160 if quick else 900)]
+            counts = [("tiny", 1500 if quick else 12000), ("small", 1100 if quick else 8000),
+                      ("mid", 400 if quick else 2500), ("tailbuf", 160 if quick else 900),
+                      ("burst", 140 if quick else 1500)]
             for cls, n in counts:
                 for _ in range(int(n * share)):
                     cases.append(gen_case(rng, cls))
@@ -813,6 +826,11 @@ def run_check(ctx, prop, props_module, level):
         relay_sched.run_sched(ctx, prop, cov, dist)
         builder.join()
         relay_real.run_real(ctx, prop, cov, dist)
+    if ctx.violations and ctx.broken:
+        # a failing input was found although a proof/tie/harness build is broken as well: say both (ctx.finish
+        # prints the broken entries only when there is no failing input; they are in the evidence and the replay)
+        for b in ctx.broken[:4]:
+            ctx.log("broken (in addition to the failing input):", b[0], b[1], "::", str(b[2])[:300])
     cov["distinct_nontrivial"] = len(cov.pop("_distinct"))
     cov["distribution"] = dist
     cov["traces_validated_against_impl"] = cov["evaluations"]
@@ -824,7 +842,11 @@ def run_check(ctx, prop, props_module, level):
                      "provably simulates the FIFO specification + policy of the theorems, Relay/IndexSim.lean)",
                      "domain: no NUL, every line (with its newline) and the final fragment <= 131072 bytes, no "
                      "return-code marker inside a stdout line; host names shorter than LINEBUFSIZE without NUL",
-                     "one handler thread per host (as in dsh.c); interleaving between hosts is by whole stdio call"],
+                     "one handler thread per host (as in dsh.c); interleaving between hosts is by whole stdio call",
+                     "the transport's forked child never touches the stdio buffers it inherited from pdsh (it leaves "
+                     "with _exit when exec fails): a target whose command cannot be started contributes no record "
+                     "(C05.unstarted_host_writes_nothing); checked by real runs in which execvp fails (ENOENT/EACCES) "
+                     "before, between and after hosts with unterminated output, stdout to a pipe and to a file"],
         trusted_base=["Lean 4.33 kernel", "axioms: propext, Classical.choice, Quot.sound at most (audited per theorem)",
                       "hand-written model Relay/Model.lean tied to dsh.c/err.c by differential execution",
                       "Gen/Relay.lean, Gen/Cbuf.lean, Gen/Dsh.lean regenerated from /repo",
